@@ -175,8 +175,13 @@ pub fn variants_of(name: &str, ws: &Workspace, pkg: usize, file: usize, tier: Ti
             push(format!("delete char at {b}"), format!("{}{}", &text[..b], &text[b + c.len_utf8()..]), b);
             // every prefix of the file (the text while it is being typed)
             push(format!("prefix of {} bytes", b + c.len_utf8()), text[..b + c.len_utf8()].to_string(), b);
+            // one multi-byte character at every boundary in both tiers (after a backslash, inside
+            // identifiers, between operators ...), the longer list in the thorough tier
+            if tier != Tier::Thorough {
+                push(format!("insert char \"€\" at {b}"), format!("{}€{}", &text[..b], &text[b..]), b);
+            }
             if tier == Tier::Thorough {
-                for ch in ["\"", "/", "😀", "\n", "0", "_", "A", ".", "-", "<"] {
+                for ch in ["\"", "/", "😀", "é", "€", "\\", "\n", "0", "_", "A", ".", "-", "<"] {
                     push(format!("insert char {ch:?} at {b}"), format!("{}{ch}{}", &text[..b], &text[b..]), b);
                 }
             }
